@@ -127,3 +127,11 @@ Theorem c10_total_on_all_trees_strict : forall e silent t,
   match analyze e silent t with Ok _ => True | Err k => allowed_err k = true end.
 Proof. exact TotalValue3.c10_total_on_all_trees_strict. Qed.
 Print Assumptions c10_total_on_all_trees_strict.
+
+(** script level, strict (Tree/TotalScript2.v) *)
+From SV Require Import Tree.TotalScript2.
+Theorem c10_script_total_strict : forall e silent base stmts,
+  Forall (fun t => escape_free t = true /\ nw_inner t = true) stmts -> script_rn_ok e silent base stmts = true ->
+  match script_graph e silent base stmts with Ok _ => True | Err k => allowed_err k = true end.
+Proof. exact script_total_strict. Qed.
+Print Assumptions c10_script_total_strict.
